@@ -12,11 +12,12 @@ META = dict(
               "sessions, unbounded theorems over all wf configurations without include_service<>; tie: generated "
               "server<> instantiations mixing primary and secondary services (before / between / after, 16 and 128 bit "
               "uuids, fixed handles with gaps), range sweeps and closed-loop discovery of both procedures",
-    level_note="PROVED (unbounded, wf configurations without include_service<>): the byte-exact responses of Read By Group Type and "
-               "Find By Type Value for <<Primary Service>> are the encodings of a non-empty prefix of the declared primary services "
-               "(with the requested uuid) in the range, with their real handle ranges, never a secondary service; Attribute Not Found "
-               "iff there is none; discover_all of both procedures enumerates them exactly. "
-               " MONITORED / TIED ONLY: the monitor-level statement (decode of the encodings). See docs/C03.md")
+    level_note="PROVED IN FULL (unbounded, wf configurations without include_service<>): the byte-exact responses of Read By Group "
+               "Type and Find By Type Value for <<Primary Service>> are the encodings of a non-empty (maximal) prefix of the declared "
+               "primary services (with the requested uuid) in the range, with their real handle ranges, never a secondary service; "
+               "Attribute Not Found iff there is none; discover_all of both procedures enumerates them exactly; THE MONITOR THEOREM: "
+               "c03_monitor accepts the model's trace for every request history of any length from the initial state (decode of the "
+               "encodings, session invariant, reachable-state invariant, no FAULT of the two handlers). See docs/C03.md")
 
 
 class C03(AttBase):
